@@ -216,7 +216,7 @@ _C05_BOUND = ('BOUNDED (not a proof): quick tier: every string of at most 4 char
               'characters over the five structural characters {1 - . e _}, at most 5 bytes over the alphabet with U+00BD, plus a native sweep up to 7 characters. Each is run symbolically through the '
               'real BigDecimal::from_str_radix (radix 10) by Kani/CBMC with loops unwound (length + 3) times and unwinding assertions on; BigInt::from_str_radix is replaced by a recording stub '
               'and alloc::fmt::format by an empty-string stub')
-prop('C05', units=[], level='other',
+prop('C05', units=[], level='other', engine='kani-leaf',
      hooks=[_h.kani_hook(_C05_QUICK, tiers=('quick',), stubbing=_C05_STUB, bounded=_C05_BOUND, timeout=1800, required=True, concretize=['parse_sweep', '4']),
             _h.kani_hook(_C05_THOROUGH, tiers=('thorough',), stubbing=_C05_STUB, bounded=_C05_BOUND, timeout=3000, jobs=5, required=True, concretize=['parse_sweep', '5']),
             _h.replay_hook([dict(args=['parse_sweep', '7'], what='native sweep of all strings up to 7 characters against the grammar recogniser')], tiers=('thorough',))],
